@@ -505,6 +505,15 @@ def class_pairs():
                                     ("inherited field", "d", "b.v = new Cat();", "b.v = new Dog();"), ("upcast to another specialisation", "d", "Box<Cat> w = b;", "Box<Dog> w = b;")]:
         P.append(("a value of the wrong type through a generic base class", pos, gbx % (sup, bad_s), gbx % (sup, good_s)))
     P.append(("a value of the wrong type through a generic base class", "super(...) argument", gbx % ("new Cat()", ""), gbx % ("d", "")))
+    # array element types are primitives
+    ae = "class Q { public constructor() -> Q { } }\nfunction main() -> void { %s echo(1); }"
+    for pos, bad_s, good_s in [("local array of class references", "Q[] a;", "Q a = null;"), ("array of class references with a literal", "Q[] a = {new Q(), new Q()};", "int[] a = {1, 2};"),
+                               ("sized array of class references", "Q[2] a;", "int[2] a;")]:
+        P.append(("an array whose element type is a class", pos, ae % bad_s, ae % good_s))
+    P.append(("an array whose element type is a class", "field", "class Q { public constructor() -> Q { } }\nclass H { public Q[] qs; public constructor() -> H { } }\nfunction main() -> void { echo(1); }",
+              "class Q { public constructor() -> Q { } }\nclass H { public Q qs = null; public constructor() -> H { } }\nfunction main() -> void { echo(1); }"))
+    P.append(("an array whose element type is a class", "parameter", "class Q { public constructor() -> Q { } }\nfunction f(Q[] a) -> void { }\nfunction main() -> void { echo(1); }",
+              "class Q { public constructor() -> Q { } }\nfunction f(Q a) -> void { }\nfunction main() -> void { echo(1); }"))
     # generic classes: a T-typed value is no primitive; a '= default' parameter has its field's whole type
     gt = ("class Box<T> { public T v; public constructor(T v) -> Box<T> { this.v = v; return this; } public function get() -> T { return this.v; } %s }\n"
           "function main() -> void { Box<string> b = new Box<string>(\"text\"); echo(b.get()); }")
